@@ -41,6 +41,12 @@ Theorem C07_recreate_style_attrs_ok : forall content ids,
 Proof. exact recreate_style_attrs_ok. Qed.
 Print Assumptions C07_recreate_style_attrs_ok.
 
+(* a style= reference is only written for a style that exists in the head *)
+Theorem C07_style_refs_resolve : forall content ids v,
+  In (lit "style", v) (recreate_style content ids) -> existsb (str_eqb v) ids = true.
+Proof. exact style_refs_resolve. Qed.
+Print Assumptions C07_style_refs_resolve.
+
 (* ---- regions (model of RegionCreator): ids unique, every reference resolves, no unreferenced region ------------- *)
 Theorem C07_region_ids_unique : forall cs, NoDup (defined cs).
 Proof. exact region_ids_unique. Qed.
